@@ -469,6 +469,27 @@ func c11datatypeWord(c *Ctx, r *Result) {
 					}
 				}
 			}
+			// an encoder that is handed a datatype description packs its class bit field (for a version 1 compound the member
+			// count lives there)
+			takesDT := false
+			for _, p := range fn.Params {
+				if namedShort(p.Type()) == "core.DatatypeMessage" || strings.HasSuffix(p.Type().String(), "core.DatatypeMessage") {
+					takesDT = true
+				}
+			}
+			if takesDT {
+				hasBits := false
+				for _, t := range terms {
+					s, sh := termShift(t)
+					if sh == decShift["ClassBitField"] && !isDatatypeClassValue(s) && !c11isVersion(s) {
+						hasBits = true
+					}
+				}
+				if !hasBits {
+					ok = false
+					why += "no term of the header word stands at the class bit field's position (for a version 1 compound the member count lives there); "
+				}
+			}
 			if why == "" {
 				why = itoa(len(terms)) + " terms at the decoder's shifts"
 			}
